@@ -95,6 +95,7 @@ def run(tier, seed):
     col.merge(stepcheck.explore(ri, MONS, 0, 0, seed=seed))
     col.merge(stepcheck.explore(stepcheck.edited_items(names=("add-task", "add-link", "task-work")), MONS, 0, 0, seed=seed))  # the model edited between two runs (a first task for an empty component)
     col.merge(stepcheck.explore(F.scale_items(("TSLACK",)), MONS, 0, 0, seed=seed))
+    col.merge(stepcheck.explore(F.extra_items(("TSLACK",), calendars=True), MONS, 0, 0, seed=seed))  # other ways of building the object graph; continuations under a revised calendar
     # the component/task log relation after the absence steps were deleted again (long, regular calendars on runs of 20-60 steps)
     week = [k for k in range(0, 75) if k % 7 in (5, 6)]
     pr = [(sp, dict(o, absence=list(ab), post_remove=True, max_time=o["max_time"] + len(ab))) for sp, o in F.scale_items(("TSLACK",)) if not o["absence"] and not o.get("res_absence")
